@@ -19,9 +19,9 @@ import (
 type group func(p *ir.Prog) (ok int, fails []string)
 
 var groups = map[string]group{
-	"lockset": lockset,
-	"cfg":     cfgfix,
-	"decide":  func(p *ir.Prog) (int, []string) { return 0, nil },
+	"lockset":   lockset,
+	"cfg":       cfgfix,
+	"decide":    func(p *ir.Prog) (int, []string) { return 0, nil },
 	"typestate": typestate,
 }
 
